@@ -1511,6 +1511,8 @@ impl CaState {
 							r.body = serde_json::to_vec(&v).unwrap();
 						}
 					}
+					// the conforming answer under a status code that is neither 2xx nor an error class
+					("status", code) => r.status = code.parse().unwrap_or(300),
 					("nolocation", _) => r.del_header("Location"),
 					("nonce", "missing") => r.headers.push(("X-No-Nonce".into(), "1".into())),
 					("nonce", "empty") => r.headers.push(("X-Nonce-Override".into(), "".into())),
